@@ -1017,12 +1017,20 @@ udp_pipe_recv(void *arg, nni_aio *aio)
 {
 	udp_pipe *p  = arg;
 	udp_ep   *ep = p->ep;
+	nni_msg  *msg;
 
 	nni_aio_reset(aio);
 	nni_mtx_lock(&ep->mtx);
 	if (p->closed) {
 		nni_mtx_unlock(&ep->mtx);
 		nni_aio_finish_error(aio, NNG_ECLOSED);
+		return;
+	}
+	// A message that arrived while no receive was posted waits in the
+	// receive queue.  Hand it over now, nothing else will.
+	if (nni_lmq_get(&p->rx_mq, &msg) == 0) {
+		nni_mtx_unlock(&ep->mtx);
+		nni_aio_finish_msg(aio, msg);
 		return;
 	}
 	if (!nni_aio_start(aio, udp_pipe_recv_cancel, p)) {
